@@ -141,28 +141,8 @@ func (w *c12Walker) headerOps(fn *c12Fn, nodes ...ast.Node) []string {
 			case *ast.BlockStmt:
 				return false
 			case *ast.CallExpr:
-				if sel, ok := x.Fun.(*ast.SelectorExpr); ok {
-					if id, ok := sel.X.(*ast.Ident); ok && id.Name == "time" {
-						switch sel.Sel.Name {
-						case "Now":
-							fn.counts["now"]++
-							l := fmt.Sprintf("%s/now#%d", fn.name, fn.counts["now"])
-							fn.labels = append(fn.labels, l)
-							x.Fun = &ast.SelectorExpr{X: ast.NewIdent("c12sched"), Sel: ast.NewIdent("Now")}
-							x.Args = []ast.Expr{&ast.BasicLit{Kind: token.STRING, Value: strconv.Quote(l)}}
-							return false
-						case "NewTimer":
-							fn.counts["newtimer"]++
-							l := fmt.Sprintf("%s/newtimer#%d", fn.name, fn.counts["newtimer"])
-							fn.labels = append(fn.labels, l)
-							x.Fun = &ast.SelectorExpr{X: ast.NewIdent("c12sched"), Sel: ast.NewIdent("NewTimer")}
-							x.Args = append([]ast.Expr{&ast.BasicLit{Kind: token.STRING, Value: strconv.Quote(l)}}, x.Args...)
-							return true
-						case "Until":
-							x.Fun = &ast.SelectorExpr{X: ast.NewIdent("c12sched"), Sel: ast.NewIdent("Until")}
-							return true
-						}
-					}
+				if handled, descend := w.timeCall(fn, x); handled {
+					return descend
 				}
 			}
 			if k, what := w.syncOp(n); k != "" {
@@ -172,6 +152,74 @@ func (w *c12Walker) headerOps(fn *c12Fn, nodes ...ast.Node) []string {
 		})
 	}
 	return labels
+}
+
+// timeCall replaces the package time's clock and timer functions by the shim's (virtual clock in
+// controlled mode).  handled: x was such a call; descend: its arguments still have to be walked.
+func (w *c12Walker) timeCall(fn *c12Fn, x *ast.CallExpr) (handled, descend bool) {
+	sel, ok := x.Fun.(*ast.SelectorExpr)
+	if !ok {
+		return false, true
+	}
+	id, ok := sel.X.(*ast.Ident)
+	if !ok || id.Name != "time" {
+		return false, true
+	}
+	shim := func(name string) { x.Fun = &ast.SelectorExpr{X: ast.NewIdent("c12sched"), Sel: ast.NewIdent(name)} }
+	labelled := func(kind string) ast.Expr {
+		fn.counts[kind]++
+		l := fmt.Sprintf("%s/%s#%d", fn.name, kind, fn.counts[kind])
+		fn.labels = append(fn.labels, l)
+		return &ast.BasicLit{Kind: token.STRING, Value: strconv.Quote(l)}
+	}
+	switch sel.Sel.Name {
+	case "Now":
+		if len(x.Args) != 0 {
+			return false, true
+		}
+		shim("Now")
+		x.Args = []ast.Expr{labelled("now")}
+		return true, false
+	case "NewTimer":
+		shim("NewTimer")
+		x.Args = append([]ast.Expr{labelled("newtimer")}, x.Args...)
+		return true, true
+	case "After":
+		shim("After")
+		x.Args = append([]ast.Expr{labelled("after")}, x.Args...)
+		return true, true
+	case "Sleep":
+		shim("Sleep")
+		x.Args = append([]ast.Expr{labelled("sleep")}, x.Args...)
+		return true, true
+	case "Until":
+		shim("Until")
+		return true, true
+	case "Since":
+		shim("Since")
+		return true, true
+	}
+	return false, true
+}
+
+// timeOnly rewrites the clock/timer calls below n (communication clauses of a select: the channel
+// operations themselves are part of the select's label).
+func (w *c12Walker) timeOnly(fn *c12Fn, n ast.Node) {
+	if n == nil {
+		return
+	}
+	ast.Inspect(n, func(n ast.Node) bool {
+		switch x := n.(type) {
+		case *ast.FuncLit:
+			w.funcBody(fn.name+".func", x.Body, fn)
+			return false
+		case *ast.CallExpr:
+			if handled, descend := w.timeCall(fn, x); handled {
+				return descend
+			}
+		}
+		return true
+	})
 }
 
 var c12LitCount = map[string]int{}
@@ -292,6 +340,9 @@ func (w *c12Walker) stmt(fn *c12Fn, s ast.Stmt) ([]string, ast.Stmt) {
 		l := fn.label("select", strings.Join(alts, "|"))
 		for _, c := range x.Body.List {
 			cc := c.(*ast.CommClause)
+			if cc.Comm != nil {
+				w.timeOnly(fn, cc.Comm)
+			}
 			cc.Body = w.stmtList(fn, cc.Body, 0)
 		}
 		return []string{l}, x
@@ -374,6 +425,16 @@ func c12Process(repo, file string) (*c12Walker, *ast.File, error) {
 		}
 		w.funcBody(name, fd.Body, nil)
 	}
+	// values the shim hands out instead of *time.Timer have the shim's type: fields, variables and
+	// parameters declared as (*)time.Timer follow
+	ast.Inspect(f, func(n ast.Node) bool {
+		if sel, ok := n.(*ast.SelectorExpr); ok && sel.Sel.Name == "Timer" {
+			if id, ok := sel.X.(*ast.Ident); ok && id.Name == "time" && id.Obj == nil {
+				sel.X = ast.NewIdent("c12sched")
+			}
+		}
+		return true
+	})
 	// import the shim
 	imp := &ast.ImportSpec{Path: &ast.BasicLit{Kind: token.STRING, Value: strconv.Quote(c12Shim)}}
 	added := false
@@ -411,7 +472,12 @@ func c12Rewrite(repo, outdir string) error {
 			return err
 		}
 		// keep the imports used whatever was rewritten
-		b.WriteString("\nvar _ = c12sched.Point\nvar _ time.Duration\n")
+		b.WriteString("\nvar _ = c12sched.Point\n")
+		for _, im := range f.Imports {
+			if im.Path.Value == `"time"` && im.Name == nil {
+				b.WriteString("var _ time.Duration\n")
+			}
+		}
 		if err := os.WriteFile(filepath.Join(outdir, file), b.Bytes(), 0o644); err != nil {
 			return err
 		}
